@@ -581,6 +581,22 @@ Definition q_cache (m : mem) (q : query) : answer := q_eval (mem_decl m) (mem_ta
 Definition q_db (w : world) (q : query) : answer :=
   q_eval (db_decl (w_db w)) (db_tag (w_db w)) (map fst (w_db w)) q.
 
+(* ---------------------------------------------------------------- the vocabulary of the theorems *)
+
+(* distinct effects get distinct, increasing stamps *)
+Definition clock_strict (tick : nat -> nat) : Prop := forall c, c < tick c.
+
+(* the worlds that histories produce: any number of processes of any users and flavors, one after
+   the other, each with any operations, dying or not at any of the modelled points, and cache
+   files deleted at any moment; EUPS_PATH names each stack once *)
+Inductive reachable (tick : nat -> nat) (vr : variant) : world -> Prop :=
+| R_init path : NoDup path -> reachable tick vr (init_world path)
+| R_proc w p : reachable tick vr w -> reachable tick vr (run_proc tick vr w p)
+| R_del w loc s fl : reachable tick vr w -> reachable tick vr (delete_cache w loc s fl).
+
+(* does fromCache believe the cache files of directory loc for stack s (the outcome of _tryCache) *)
+Definition believed (w : world) (loc s : str) (nf : list str) : bool := snd (try_cache w loc s nf ps_empty).
+
 (* ---------------------------------------------------------------- for the driver *)
 
 Definition tickS : nat -> nat := S.
